@@ -57,7 +57,8 @@ RULE = ("seeded random graph functions as data (vf/gen_graph.py, profile c01): "
         "one operator, unreferenced pure and side-effecting units, 1-4 output "
         "units, madd/Sum3/Sum4/operators expanded over channel lists whose "
         "channels run at different rates (each channel to a sink of its own "
-        "rate); <= 60 units, depth <= 7.  A program is non-trivial when at "
+        "rate), width-first units (RandSeed, RandID, LocalBuf with SetBuf / "
+        "ClearBuf) between the arithmetic; <= 60 units, depth <= 7.  A program is non-trivial when at "
         "least one optimiser rewrite, constructor shortcut or dead-code removal "
         "fired while it was compiled; distinct = hash of the program data")
 ASSUMPTIONS = [
@@ -78,6 +79,8 @@ MIN_COUNTERS = {
     'fired_replace_subneg_to_add': 3, 'fired_dead_code_removed': 100,
     'fired_shortcut_BinaryOpUGen': 50, 'fired_shortcut_MulAdd': 10,
     'operator_units_opcode_checked': 300, 'feature_mixed-rate-channels': 500,
+    'feature_width-first-unit': 500, 'width_first_pairs_checked': 1000,
+    'programs_compiled_after_a_width_first_definition': 1000,
 }
 
 
@@ -223,6 +226,11 @@ def _flat(vals):
 def compare(prog, d, rho, gg, oc, stats):
     """Problems (key, detail) of definition d w.r.t. program prog under rho."""
     src = gg.SourceEval(prog, rho)
+    n_eff = sum(1 for u in src.units if u['eff'] == 'effect')
+    if n_eff and not d.units:
+        return [('C01/definition-without-its-side-effect-units',
+                 f'the function creates {n_eff} output / side-effecting units, '
+                 f'the definition has no unit at all')]
     dec = DecodedEval(d, rho, gg, oc)
     if dec.structural:
         return dec.structural[:1]
@@ -381,6 +389,32 @@ def compare(prog, d, rho, gg, oc, stats):
              f'live node v{o["node"]} has no unit with its opcode and operands')]
 
 
+def width_first_order(d, prog, gg, stats):
+    """creation order is known from the tag constants: every tagged unit
+    created after a width-first unit must be placed after it"""
+    tags = gg.tag_creation_order(prog)
+    pos = []
+    for u in d.units:
+        for w in u.inputs:
+            if w[0] == 'c':
+                c = d.constants[w[1]]
+                if c == int(c) and int(c) in tags:
+                    pos.append((u.index, tags[int(c)], u))
+                    break
+    for pw, nw, w in pos:
+        if w.cls not in gg.WIDTH_FIRST_CLASSES:
+            continue
+        stats['width_first_units_checked'] += 1
+        for pt, nt, t in pos:
+            if nt > nw:
+                stats['width_first_pairs_checked'] += 1
+                if pt < pw:
+                    return [('C01/width-first-order',
+                             f'{t!r} was created after {w!r} but is placed '
+                             f'before it')]
+    return []
+
+
 # ---------------------------------------------------------------------------
 # counters of fired optimiser paths (evidence only)
 # ---------------------------------------------------------------------------
@@ -475,6 +509,7 @@ def run_shard(spec, acc):
     fired = Counter()
     install_counters(fired)
     rhos = None
+    seen_wf = False
     stats = Counter()
     for i in iter_cases(spec):
         rng = case_rng(spec['seed'], 'C01', 'g', i)
@@ -503,6 +538,10 @@ def run_shard(spec, acc):
                            'tb': safe(short_tb, e, 5)})
             continue
         acc.count('programs_compiled')
+        if seen_wf:
+            acc.count('programs_compiled_after_a_width_first_definition')
+        if 'width-first-unit' in prog.get('features', ()):
+            seen_wf = True
         acc.case(sig, nontrivial=sum(fired.values()) > f0)
         try:
             d = scgf.parse(raw)
@@ -520,6 +559,7 @@ def run_shard(spec, acc):
         rhos = [gg.Rho(f'C01-{spec["seed"]}-{i}-{k}'.encode(), gg.PRIMES[k])
                 for k in range(3)]
         found = None
+        wfo = width_first_order(d, prog, gg, stats)
         for k, rho in enumerate(rhos):
             st = Counter()
             probs = compare(prog, d, rho, gg, oc, st)
@@ -528,6 +568,8 @@ def run_shard(spec, acc):
             if probs:
                 found = (k, probs[0])
                 break
+        if not found and wfo:
+            found = (0, wfo[0])
         if found:
             k, (key, detail) = found
             acc.violation(key, {'case': i, 'rho': k, 'detail': detail,
